@@ -1726,7 +1726,8 @@ class TimeDeltaDateTime(TimeDeltaFormat):
         try:
             return timedelta(days=jd1 + jd2)
         except TypeError:
-            return np.array([timedelta(days=j1 + j2) for j1, j2 in zip(jd1, jd2)])
+            # dtype given: an array without values is an array of timedeltas too (not float64)
+            return np.array([timedelta(days=j1 + j2) for j1, j2 in zip(jd1, jd2)], dtype=object)
 
 
 #######################################################################################################################
